@@ -29,6 +29,17 @@ CHECKS = {
              "used_slots incremented exactly on filling an empty slot, capacity = buckets x slot count). Exploration could only sample interleavings and keys.",
         design_ref="DESIGN.md section 4, C15",
         note=TB_COMMON + " std::sync::RwLock gives mutual exclusion; slice iterators visit elements in index order. Zero buckets/tables excluded (property scope)."),
+    "C08": dict(
+        category="proof",
+        technique="static analysis: influence (data + control dependence) analysis of every XOR-accumulate in ZobristHasher::hash mapped to State fields "
+                  "through accessor read-sets, loop-distinctness of folded keys, key-table provenance/arity in ZobristHasher::with, call-graph effect check, "
+                  "def-use provenance of every key consumed by table/history/book",
+        text="Proof (up to the assumed 2^-64 collision chance of independent keys) that the hash is 0 XOR per-component keys: every rule-relevant component "
+             "(placement, side, castling rights, en passant target) influences exactly its own folded keys, the clock influences none, keys come from the "
+             "caller's Rng with enough arity, no key can be folded twice inside a loop, hash is pure, and every consumer key is the result of this hash. "
+             "Holds for all positions/seeds at once; tests sample a handful of positions.",
+        design_ref="DESIGN.md section 4, C08",
+        note=TB_COMMON + " 64-bit collisions of independent random keys are ignored; rule H5.component deliberately rejects keys that mix several State components (unproven refinements)."),
 }
 
 NOT_BUILT_REASON = "check not built yet (see DESIGN.md for the plan)"
